@@ -43,6 +43,20 @@ claim('C08',
       'TLA+ spec (ErrPipe.tla) + TLC exhaustive/simulation + WSGI-level replay of TLC-generated request histories',
       'DESIGN.md 3/C08')
 
+claim('C09',
+      'ErrorFmt.tla holds the standard status table (typed from the HTTP registry), the content-negotiation rule over the four formats '
+      '(q of the most specific matching client range; q=0 unacceptable; maximal q wins, ties open; plain text iff nothing acceptable; '
+      'absent header = anything) and the definition of a conforming body on its projection (well formed, fields present as data where '
+      'required, no markup originating from dynamic text). TLC checks the rule (total, text iff nothing acceptable, never unacceptable, '
+      'exact beats wildcard) over all Accept sequences within the bound and enumerates them for the conformance leg. Real error responses '
+      '- every TLC-enumerated Accept sequence, every exported error class raised/returned/with overridden code, a 15-string hostile palette '
+      'in detail/message/error_type, default and debug handlers incl. exception text, locals and request paths - are projected with '
+      'json / expat / html.parser and TLC judges every record (StatusOK, FormatOK, BodyOK; ErrorFmt_Trace).',
+      'Trusted: TLC; the stdlib parsers; markup injection is recognised by a unique marker in element/attribute/comment names; field presence '
+      'is required of JSON bodies only (as the property states); XML only for XML-1.0-representable text.',
+      'TLA+ spec (ErrorFmt.tla) + TLC + record validation of projected real responses (ErrorFmt_Trace.tla); escaping clauses are projection-decided',
+      'DESIGN.md 3/C09')
+
 claim('C10',
       'Embed.tla defines Flatten for chains of up to three applications (prefixes, merged middlewares, resources, slash mode with '
       'inherit_slashes, renderer resolution with render factories / rebind_render / explicit callables, error handling) as a '
